@@ -289,7 +289,7 @@ def judge(ctx, files, mod="BlockContract_Trace"):
             hdr_at = []
             cur = None
             for i, l in enumerate(lines):
-                if l.startswith('{"') and '"ev":"scenario"' in l:
+                if l.startswith('{"') and ('"ev":"scenario"' in l or '"ev":"graph"' in l):
                     cur = i
                 hdr_at.append(cur)
             seen = set()
@@ -410,6 +410,15 @@ def run(ctx, table=None, labels=None):
     ctx.cov["programs"] = len(set((s["block"], json.dumps(s["params"])) for s in specs))
     ctx.sample({k: v for k, v in specs[1].items() if k in ("block", "params", "mode", "sched", "len", "kind", "tags")})
     ctx.sample({k: v for k, v in specs[-1].items() if k in ("block", "params", "mode", "steps", "len", "kind", "tags", "close")})
+    if prop == "C10":
+        cfg = ctx.path("bfns.cfg")
+        with open(cfg, "w") as f:
+            f.write(f"CONSTANT MaxN = {14 if thorough else 12}\nSPECIFICATION Spec\nINVARIANT ClosedFormsAgree\nCHECK_DEADLOCK FALSE\n")
+        r = vlib.tlc(ctx, "MC_BlockFns", cfg, workers=8, timeout=900)
+        if r.violated or not r.ok:
+            raise vlib.ToolError(f"BlockFns closed forms disagree with the recursive definitions: {r.out[-1500:]}")
+        ctx.cov["states"] += r.distinct
+        ctx.cov["transitions"] += r.generated
     files = run_bench(ctx, specs, prop)
     fails = judge(ctx, files)
     report(ctx, fails, labels)
